@@ -263,11 +263,104 @@ class PathA(FormulaSpace):
 
     # ------------------------------------------------------------------ small pure predicates are transparent
     def formula(self, e, point, env=None, pc=None):
-        if isinstance(e, tuple) and e and e[0] == "call" and len(e) > 4 and e[4] and e[3] is None:
-            f = self._inline_predicate(e)
+        if isinstance(e, tuple) and e and e[0] == "call" and len(e) > 4 and e[3] is None:
+            f = self._inline_predicate(e) if e[4] else self._std_predicate(e, point, env, pc)
             if f is not None:
                 return f
         return FormulaSpace.formula(self, e, point, env, pc)
+
+    def _std_predicate(self, e, point, env, pc):
+        """bool-valued std combinators whose meaning is a formula over their arguments: Option::is_some_and / is_none_or / map_or,
+        Result::is_ok_and / is_err_and (closure argument), Range / RangeInclusive::contains with explicit bounds."""
+        path, args = e[1], e[2]
+        b = self.bdd
+        last = path.rsplit("::", 1)[-1]
+        try:
+            if ("option::Option::<T>::" in path and last in ("is_some_and", "is_none_or", "map_or")) or \
+                    ("result::Result::<T, E>::" in path and last in ("is_ok_and", "is_err_and")):
+                subj = args[0]
+                cl = args[-1]
+                if not (cl[0] == "agg" and cl[1] == "closure"):
+                    return None
+                variant = {"is_some_and": "Some", "is_none_or": "Some", "map_or": "Some", "is_ok_and": "Ok", "is_err_and": "Err"}[last]
+                adt = "core::option::Option" if "option::Option" in path else "core::result::Result"
+                payload = ("field", ("as", subj, variant), adt, "0")
+                inner = self._closure_formula(cl, payload)
+                if inner is None:
+                    return None
+                has = self.is_atom(("is", subj, variant))
+                if last in ("is_some_and", "is_ok_and", "is_err_and"):
+                    return b.AND(has, inner)
+                if last == "is_none_or":
+                    return b.OR(b.NOT(has), inner)
+                d = args[1]
+                if d[0] == "const" and isinstance(d[1], bool):
+                    return b.OR(b.AND(has, inner), b.AND(b.NOT(has), b.TRUE if d[1] else b.FALSE))
+                return None
+            if last == "contains" and ("ops::RangeInclusive" in path or "ops::Range::" in path or "range::RangeInclusive" in path or "range::Range::" in path):
+                r, x = args[0], args[1]
+                lo = hi = None
+                incl = "Inclusive" in path
+                r0 = r
+                while isinstance(r0, tuple) and r0 and r0[0] == "old":
+                    r0 = r0[1]
+                if r0[0] == "call" and r0[1].endswith("RangeInclusive::<Idx>::new") and len(r0[2]) == 2:
+                    lo, hi = r0[2]
+                elif r0[0] == "agg" and r0[1] == "adt" and "ops::range::Range" in str(r0[2]) and len(r0[3]) == 2:
+                    lo, hi = r0[3]
+                if lo is None:
+                    return None
+                ty = lo[2] if lo[0] == "const" else (hi[2] if hi[0] == "const" else None)
+                if ty is None:
+                    return None
+                ge = b.NOT(self._cmp("Lt", x, lo, ty))
+                le = self._cmp("Le", x, hi, ty) if incl else self._cmp("Lt", x, hi, ty)
+                return b.AND(ge, le)
+        except Exception:
+            return None
+        return None
+
+    def _closure_formula(self, cl, payload):
+        """Return formula of a pure bool closure applied to `payload` (its single argument), captures substituted."""
+        cf = self.world.fns.get(cl[2])
+        if cf is None or cf.locals[0]["ty"] != "bool" or len(cf.blocks) > 60 or cl[2] in _inline_stack or len(_inline_stack) >= 3:
+            return None
+        from .effects import effects_of
+        eff = effects_of(self.world)
+        if eff.W(cf.id) or eff.WW(cf.id):
+            return None
+        _inline_stack.append(cl[2])
+        try:
+            cpa = patha_of(self.world, cf)
+            rt = cpa.ret_true()
+            if not cpa.equivalent(cpa.ret_false(), cpa.bdd.NOT(rt)):
+                return None
+            caps = cl[3]
+            for a in cpa.atoms_of(rt):
+                for x in walk(a):
+                    if x[0] in ("var", "unknown", "resume", "localbool", "imported"):
+                        return None
+                    if x[0] == "call" and x[3] is not None:
+                        return None
+                    if x[0] == "upvar" and not (0 <= x[1] < len(caps)):
+                        return None
+                    if x[0] == "param" and x[1] != 2:
+                        return None
+
+            def mapping(x):
+                if isinstance(x, tuple) and x:
+                    if x[0] == "param" and x[1] == 2:
+                        return payload
+                    if x[0] == "upvar":
+                        return caps[x[1]]
+                    if x[0] == "old":
+                        return subst(x[1], mapping)
+                return None
+            return self.import_formula(cpa, rt, mapping)
+        except Exception:
+            return None
+        finally:
+            _inline_stack.pop()
 
     def _inline_predicate(self, e):
         """A call of a small, effect-free, bool-returning workspace helper that no rule refers to by name is replaced by the
@@ -436,7 +529,7 @@ class PathA(FormulaSpace):
             t = blkd["term"]
             if t["k"] == "call" and not t["dest"]["proj"] and t["dest"]["l"] in self.tracked:
                 val = self.fa._val_call(t, (blk, nst), 0)
-                f = self.atom(val)
+                f = self.formula(val, (blk, nst), env, cur)
                 env[t["dest"]["l"]] = (b.AND(cur, f), b.AND(cur, b.NOT(f)))
             # edges
             for (succ, cond) in self._edges(blk, t, cur, env):
